@@ -175,7 +175,8 @@ func (s *Scope) buildService(cu *CodeUtils, v *parser.Service) error {
 	}
 	s.services = append(s.services, svc)
 
-	// function names
+	// function names; Client_ is the accessor the client template declares beside them
+	svc.scope.MustReserve("Client_", _p("client_"))
 	for _, f := range v.Functions {
 		fn := s.identify(cu, f.Name)
 		fn = svc.scope.Add(fn, f.Name)
